@@ -76,6 +76,10 @@ func (zzInner) ServeHTTP(w http.ResponseWriter, r *http.Request) (int, error) {
 				w.Write(chunk)
 			}
 		}
+		if verifrt.Bool("error-after-writing") {
+			// the response is out; the error is for the log of the errors directive only
+			return 0, errors.New("inner error after writing")
+		}
 		return 0, nil
 	}
 	code := []int{0, 200, 404, 500}[verifrt.Choose("ret", 4)]
